@@ -15,6 +15,9 @@
 #ifndef H_PAT
 #define H_PAT 1
 #endif
+#ifndef H_EXMASK
+#define H_EXMASK 0xffff
+#endif
 #ifndef H_SWAPBITS
 #define H_SWAPBITS 24
 #endif
@@ -51,7 +54,7 @@ extern "C" void harness(void) {
   for (int t = 0; t < H_T; t++) {
     for (int k = 0; k < NCG; k++) {
       vfw::Node& n = vfw::nodes[1 + k];
-      int ex = (int)vf_nd(K_EX + t * 4 + k, 0, 1);
+      const int ex = (H_EXMASK >> (t * NCG + k)) & 1;   /* existence history is concrete per variant (keeps glob results and path strings concrete) */
       if (!ex && n.exists) vfw::remove_node(1 + k); else if (ex && !n.exists) vfw::recreate_node(1 + k);
       int64_t v1 = vf_nd(K_V + t * 16 + k * 4 + 0, 0, 404), v2 = vf_nd(K_V + t * 16 + k * 4 + 1, 0, 404), v3 = vf_nd(K_V + t * 16 + k * 4 + 2, 0, 404);
       vf_cfg_set(CFG_SAMPLE + t, k * 4, ex); vf_cfg_set(CFG_SAMPLE + t, k * 4 + 1, v1); vf_cfg_set(CFG_SAMPLE + t, k * 4 + 2, v2); vf_cfg_set(CFG_SAMPLE + t, k * 4 + 3, v3);
